@@ -70,12 +70,27 @@ theorem isOk_val? {r : Outcome Val} : r.isOk = r.val?.isSome := by cases r <;> r
 structure AltOk (o : DOpts) (cs : Constraints) (t : Ty) : Prop where
   nc : NC (compile o cs t)
   acc : ∀ d, d.wf = true → (run (compile o cs t) d).isOk = conforms o.additionalProperties false cs t d
-  sound : ∀ c, t.factoryCls = some c → ∀ d, d.wf = true → ∀ v, run (compile o cs t) d = .ok v → d.jclass? = some c
+  inAcc : t.acc = true
 
 theorem altOk (o : DOpts) (ho : OptsOk o) (cs : Constraints) (hu : cs.unique = false) (t : Ty)
-    (ha : t.acc = true) (hn : t.nouq = true) (hf : t.noFloat = true) : AltOk o cs t :=
-  ⟨(no_crash o ho).1 cs t ha hn hu, (accepts_iff_conforms o ho).1 cs t ha,
-   fun c hc d hw v hv => compile_byTypeSound o ho cs t c ha hc hf d hw v hv⟩
+    (ha : t.acc = true) (hn : t.nouq = true) : AltOk o cs t :=
+  ⟨(no_crash o ho).1 cs t ha hn hu, (accepts_iff_conforms o ho).1 cs t ha, ha⟩
+
+/-- a type that is `float` behind NewTypes / annotations has factory class `float` -/
+theorem factoryCls_of_not_noFloat : ∀ (t : Ty), t.noFloat = false → t.factoryCls = some .float
+  | .float, _ => rfl
+  | .newtype _ t, h => by rw [Ty.noFloat] at h; rw [Ty.factoryCls]; exact factoryCls_of_not_noFloat t h
+  | .ann _ t, h => by rw [Ty.noFloat] at h; rw [Ty.factoryCls]; exact factoryCls_of_not_noFloat t h
+  | .null, h | .bool, h | .int, h | .str, h | .any, h | .list _, h | .set _, h | .frozenset _, h | .vtuple _, h
+  | .tuple _, h | .mapping _ _, h | .union _, h | .literal _, h | .enum _ _, h | .obj _ _, h => by
+    simp [Ty.noFloat] at h
+
+theorem mem_clsL : ∀ {ts : List Ty} {t : Ty}, t ∈ ts → t.factoryCls ∈ clsL ts
+  | _ :: _, _, h => by
+    rw [clsL]
+    rcases List.mem_cons.1 h with rfl | h'
+    · exact List.mem_cons_self ..
+    · exact List.mem_cons_of_mem _ (mem_clsL h')
 
 theorem any_compileL {o : DOpts} {cs : Constraints} : ∀ (ts : List Ty) (d : Py), d.wf = true →
     (∀ t ∈ ts, AltOk o cs t) →
@@ -102,8 +117,8 @@ theorem clsL_length : ∀ ts, (clsL ts).length = ts.length
   | t :: ts => by rw [clsL, List.length_cons, List.length_cons, clsL_length ts]
 
 /-- the by-type table built from the alternatives: classes in step with methods, sound at every well-formed datum -/
-theorem table_spec {o : DOpts} {cs : Constraints} : ∀ (ts : List Ty) (known : List JClass),
-    clsL ts = known.map some → (∀ t ∈ ts, AltOk o cs t) →
+theorem table_spec {o : DOpts} (ho : OptsOk o) {cs : Constraints} : ∀ (ts : List Ty) (known : List JClass),
+    clsL ts = known.map some → (∀ t ∈ ts, AltOk o cs t ∧ t.noFloat = true) →
     (known.zip (compileL o cs ts)).map (·.1) = known ∧
     (known.zip (compileL o cs ts)).map (·.2) = compileL o cs ts ∧
     ∀ d, d.wf = true → ByTypeSoundAt (known.zip (compileL o cs ts)) d
@@ -118,25 +133,27 @@ theorem table_spec {o : DOpts} {cs : Constraints} : ∀ (ts : List Ty) (known : 
     | nil => cases hk
     | cons c k =>
       simp only [List.map_cons, List.cons.injEq] at hk
-      obtain ⟨ih1, ih2, ih3⟩ := table_spec ts k hk.2 (fun t' ht' => h t' (List.mem_cons_of_mem _ ht'))
+      obtain ⟨ih1, ih2, ih3⟩ := table_spec ho ts k hk.2 (fun t' ht' => h t' (List.mem_cons_of_mem _ ht'))
       rw [compileL, List.zip_cons_cons, List.map_cons, List.map_cons, ih1, ih2]
       refine ⟨rfl, rfl, fun d hw p hp v hv => ?_⟩
       rcases List.mem_cons.1 hp with rfl | hp'
-      · exact (h t (List.mem_cons_self ..)).sound c hk.1 d hw v hv
+      · exact compile_byTypeSound o ho cs t c (h t (List.mem_cons_self ..)).1.inAcc hk.1
+          (h t (List.mem_cons_self ..)).2 d hw v hv
       · exact ih3 d hw p hp' v hv
 
 /-- **C13 at the level of `union()`.** Whatever method is selected for `Union[T1, …, Tn]` — `OptionalMethod`,
     the by-type table, or the sequential method — the datum is accepted iff some alternative accepts it, i.e.
-    iff it conforms to some alternative, provided no alternative is `float`-like (row 3), a `None`-class
-    alternative is `None` itself, and not every alternative is `None`. -/
+    iff it conforms to some alternative, provided a `None`-class alternative is `None` itself and not every
+    alternative is `None`.  `float` alternatives are included: since the repair of row 3 the by-type table is
+    not selected when one of the classes is `float`. -/
 theorem C01_accept_union (o : DOpts) (ho : OptsOk o) (cs : Constraints) (hu : cs.unique = false) (ts : List Ty)
-    (hts : ∀ t ∈ ts, t.acc = true ∧ t.nouq = true ∧ t.noFloat = true ∧ (t.factoryCls = some .null → t = .null))
+    (hts : ∀ t ∈ ts, t.acc = true ∧ t.nouq = true ∧ (t.factoryCls = some .null → t = .null))
     (hne : ts ≠ []) (hnn : ¬ (∀ t ∈ ts, t = .null))
     (d : Py) (hj : d.json = true) (hw : d.wf = true) :
     (run (unionSel (clsL ts) (anyNull ts) (compileL o cs ts)) d).isOk
       = conformsAny o.additionalProperties false cs ts d := by
   have halt : ∀ t ∈ ts, AltOk o cs t := fun t ht =>
-    altOk o ho cs hu t (hts t ht).1 (hts t ht).2.1 (hts t ht).2.2.1
+    altOk o ho cs hu t (hts t ht).1 (hts t ht).2.1
   have hany := any_compileL ts d hw halt
   have hseq : (run (.union (compileL o cs ts)) d).isOk = conformsAny o.additionalProperties false cs ts d := by
     rw [isOk_val?, run, C13_sequential _ d Option.none (fun m hm => nc_compileL ts halt m hm d hj), firstOk_isSome, hany]
@@ -154,13 +171,13 @@ theorem C01_accept_union (o : DOpts) (ho : OptsOk o) (cs : Constraints) (hu : cs
       have ha := hts a (by simp); have hb := hts b (by simp)
       rw [conformsAny, conformsAny, conformsAny, Bool.or_false]
       by_cases hca : a.factoryCls = some .null
-      · have hae : a = .null := ha.2.2.2 hca
+      · have hae : a = .null := ha.2.2 hca
         subst hae
         by_cases hcb : b.factoryCls = some .null
         · exact absurd (fun t ht => by
             simp at ht; rcases ht with rfl | rfl
             · rfl
-            · exact hb.2.2.2 hcb) hnn
+            · exact hb.2.2 hcb) hnn
         · have hfind : List.find? (fun p => p.1 != some JClass.null)
               ([Ty.null.factoryCls, b.factoryCls].zip [compile o cs Ty.null, compile o cs b])
               = some (b.factoryCls, compile o cs b) := by
@@ -184,7 +201,9 @@ theorem C01_accept_union (o : DOpts) (ho : OptsOk o) (cs : Constraints) (hu : cs
         rw [conforms, Bool.or_comm]
   · split
     · -- by-type table
-      next hbt =>
+      next hbt0 =>
+      rw [Bool.and_eq_true] at hbt0
+      obtain ⟨hbt, hnofl⟩ := hbt0
       have hbt' : (dedupCls ((clsL ts).filterMap id)).length = (compileL o cs ts).length := by simpa using hbt
       have h1 := foldl_dstep_le ((clsL ts).filterMap id) []
       have h2 := List.length_filterMap_le id (clsL ts)
@@ -195,7 +214,19 @@ theorem C01_accept_union (o : DOpts) (ho : OptsOk o) (cs : Constraints) (hu : cs
       have hfull : ((clsL ts).filterMap id).length = (clsL ts).length := by rw [clsL_length]; omega
       have hk := filterMap_id_full hfull
       have hnd : ((clsL ts).filterMap id).Nodup := dedupCls_nodup (by omega)
-      obtain ⟨t1, t2, t3⟩ := table_spec ts _ hk halt
+      have hnf : ∀ t ∈ ts, t.noFloat = true := by
+        intro t ht
+        cases hf : t.noFloat with
+        | true => rfl
+        | false =>
+          exfalso
+          have h1 := mem_clsL ht
+          rw [factoryCls_of_not_noFloat t hf, hk] at h1
+          have h2 : JClass.float ∈ (clsL ts).filterMap id := by
+            rcases List.mem_map.1 h1 with ⟨c, hc, hce⟩; cases hce; exact hc
+          have h3 : ((clsL ts).filterMap id).contains JClass.float = true := by simpa using h2
+          rw [h3] at hnofl; cases hnofl
+      obtain ⟨t1, t2, t3⟩ := table_spec ho ts _ hk (fun t ht => ⟨halt t ht, hnf t ht⟩)
       have hc : ∃ c, d.jclass? = some c := by cases d <;> first | exact ⟨_, rfl⟩ | cases hj
       obtain ⟨c, hc⟩ := hc
       rw [isOk_val?, C13_byType_at _ d c (t3 d hw) (by rw [t1]; exact hnd) hc, t2, firstOk_isSome, hany]
@@ -206,6 +237,11 @@ example : (match unionSel (clsL [.int, .str, .list .int]) (anyNull [.int, .str, 
            | .unionByType _ => true | _ => false) = true := by decide +kernel
 example : (match unionSel (clsL [.list .int, .tuple [.str]]) (anyNull [.list .int, .tuple [.str]]) (compileL {} {} [.list .int, .tuple [.str]]) with
            | .union _ => true | _ => false) = true := by decide +kernel
+/-- a `float` alternative switches the table off (repair of row 3), and the integer is accepted -/
+example : (match unionSel (clsL [.float, .str]) (anyNull [.float, .str]) (compileL {} {} [.float, .str]) with
+           | .union _ => true | _ => false) = true := by decide +kernel
+example : (run (unionSel (clsL [.float, .str]) (anyNull [.float, .str]) (compileL { quirks := Quirks.repaired } {} [.float, .str])) (.int 1)).isOk
+    = true := by decide +kernel
 example : (match unionSel (clsL [.null, .str]) (anyNull [.null, .str]) (compileL {} {} [.null, .str]) with
            | .optional _ => true | _ => false) = true := by decide +kernel
 
